@@ -130,7 +130,9 @@ def run(ctx):
     # nested contextual lookups (scratch buffers and stack entries are recycled between matches and calls):
     # every (parent format, child format, chained or not) combination, with a nested contextual action followed by an action on the first input glyph
     nest = [c for c in sc.build(["ctxnest"]) if [a["idx"] for a in c["ll"][0]["subs"][0]["rules"][0]["acts"]] == [2, 0]]
-    must = [c for c in others if multi_lig(c)] + nest
+    # cursive attachment (GPOS 3) has no reference semantics in Shaper.tla (C06 does not quantify over it) but is
+    # inside this property's quantifier: all of its shapes are always included
+    must = [c for c in others if multi_lig(c)] + nest + sc.build(["curs"])
     others = must + [c for c in others if not multi_lig(c)][:ctx.pick(45, 600)]
     rnd = [sc.random_case(rng, 0, 6) for _ in range(ctx.pick(40, 400))]
     cases = []
